@@ -140,4 +140,36 @@ let () =
       of_list of_z (M.kernel_bits (to_list to_z tf) (to_list to_z dl) (to_z avg) (to_z idf) (to_z k1) (to_z b))
     | _ -> raise (Parse_error "args"))
 
+
+(* ---- views (C06, C10) ---- *)
+let opt_n = to_option to_n
+let run_vquery a = function
+  | L [A "tf"; t] -> of_api of_nl (M.v_termfreqs a (to_n t) None None)
+  | L [A "tfr"; t; lo; hi] -> of_api of_nl (M.v_termfreqs a (to_n t) (opt_n lo) (opt_n hi))
+  | L [A "phrase"; ts] -> of_api of_nl (M.v_phrase_freqs a (nl ts) None None)
+  | L [A "phraser"; ts; lo; hi] -> of_api of_nl (M.v_phrase_freqs a (nl ts) (opt_n lo) (opt_n hi))
+  | L [A "df"; t] -> of_api of_n (M.v_docfreq a (to_n t))
+  | L [A "pos"; t] -> of_api (of_list of_nl) (M.v_positions a (to_n t))
+  | L [A "lens"] -> L [A "ok"; of_nl (M.v_doclengths a)]
+  | L [A "score"; ts; idf; k1; b] -> of_api (of_list of_z) (M.v_score_bm25 a (nl ts) (to_z idf) (to_z k1) (to_z b))
+  | L [A "args"; ts] ->
+      of_api (fun ((((tfs, dfs), dls), total), n) -> L [of_nl tfs; of_nl dfs; of_nl dls; of_n total; of_n n]) (M.v_score_args a (nl ts) None None)
+  | _ -> raise (Parse_error "vquery")
+let () =
+  register "view_query" (function [avoid; bs; docs; keys; L qs] ->
+      (match M.index false (to_nat bs) (to_docs docs) with
+       | M.AOk ix ->
+           (match M.select_chain (M.of_index ix (to_bool avoid)) (to_list nl keys) with
+            | M.AOk a -> L [A "ok"; L (List.map (run_vquery a) qs)]
+            | other -> of_api (fun _ -> A "x") other)
+       | other -> of_api (fun _ -> A "x") other)
+    | _ -> raise (Parse_error "args"));
+  register "spec_view_query" (function [docs; keys; L qs] ->
+      let docs = to_docs docs in
+      let vd = M.view_docs docs (to_list nl keys) in
+      L [A "ok"; L (List.map (function
+          | L [A "df"; t] -> spec_query docs (L [A "df"; t])
+          | q -> spec_query vd q) qs)]
+    | _ -> raise (Parse_error "args"))
+
 let () = main ()
